@@ -136,6 +136,22 @@ is reachable from `emit`, whose output is unchanged):
   in the function, with optional `name[key] = value` under an `if flag:`, is resolved by the `flags` the extractor
   passes (which optional argument is supplied);
 * a piece whose `typ` is `Int` contains only integer literals, `+ - *`, comparisons, `min`/`max`: it is emitted over `Int`.
+
+Added for the statistics formulas (C17; used only where an extractor asks for them, see `emit_values`):
+* VALUE OF AN EXPRESSION INSIDE A FUNCTION (`emit_values`): instead of a whole body, the value of a named local
+  after its last assignment, of one argument of a named call, or of the operand of the returned `.mean()` is read.
+  Only the statements that (transitively) define the names it uses are kept -- a backward slice over the top-level
+  statements of the function and, for a nested function, of the enclosing ones; early `return`s / `raise`s on the
+  way and statements that define nothing it uses (seeding, drawing, logging) are not part of that value;
+* `logging.<level>(...)` statements have no effect on values and are skipped;
+* a fixed-length array literal in an elementwise computation (`np.array([e0, e1])`, `[e0, e1]`, `list(v)`) is read
+  one COMPONENT at a time: with `component=i` every such literal stands for its i-th element;
+* `table["col"]` is the column read elementwise: the parameter `col_<col>` (whatever the table variable is called);
+* `np.sqrt(e)` and `norm.cdf(e)` are applications of the opaque function parameters `sqrt`, `norm_cdf : Rat -> Rat`
+  (nothing is assumed about them here; the theorems state what they need);
+* `e.where(c, other)` (pandas) is `if c then e else other`;
+* `E.mean()` / `np.mean(E)` as the returned value of an elementwise `E` is the arithmetic mean of `E` over the
+  elements: `(a.map elem).sum / a.length`.
 """
 from __future__ import annotations
 
@@ -167,11 +183,14 @@ def _num_literal(e):
 
 class Fn:
     def __init__(self, fn: ast.FunctionDef, given=(), absent=(), default_on_raise=None, rename=None, callees=None,
-                 pieces=False, atoms=None, num="Rat"):
+                 pieces=False, atoms=None, num="Rat", columns=False, sort_params=False):
         self.pieces = pieces          # the additional reading rules for pieces of larger functions
         self.atoms = atoms or {}      # verbatim source text -> parameter name (elementwise reading)
         self.num = num                # "Rat" | "Int"
         self.callees = callees or {}
+        self.columns = columns          # read `table["col"]` as the parameter `col_<col>` (C17 additions)
+        self.sort_params = sort_params  # discovered parameters in alphabetical order instead of order of first use
+        self.fparams = []               # opaque function parameters (`sqrt`, `norm_cdf`) in a fixed order
         self.fn = fn
         self.given = set(given)      # optional parameters known to be supplied (not None)
         self.absent = set(absent)    # optional parameters known to be None
@@ -303,6 +322,9 @@ class Fn:
             # elementwise reading of `array[mask]`
             if isinstance(e.value, ast.Name) and isinstance(e.slice, ast.Name):
                 return self.expr(e.value, env)
+            if self.columns and isinstance(e.value, ast.Name) and isinstance(e.slice, ast.Constant) \
+                    and isinstance(e.slice.value, str) and e.slice.value.isidentifier():
+                return self.param("col_" + e.slice.value)
             # a table column selected by a string literal: `cnarr["log2"]` is the parameter cnarr_log2
             if isinstance(e.value, ast.Name) and e.value.id not in env and isinstance(e.slice, ast.Constant) \
                     and isinstance(e.slice.value, str) and e.slice.value.isidentifier():
@@ -364,6 +386,15 @@ class Fn:
             if isinstance(e.func, ast.Attribute) and e.func.attr == "clip" and len(args) == 2 and not e.keywords:
                 x = self.expr(e.func.value, env)
                 return f"(min {self.expr(args[1], env)} (max {self.expr(args[0], env)} {x}))"
+            if self.columns and f in ("np.sqrt", "math.sqrt", "norm.cdf", "stats.norm.cdf") and len(args) == 1 \
+                    and not e.keywords:
+                name = "sqrt" if f.endswith("sqrt") else "norm_cdf"
+                if name not in self.fparams:
+                    self.fparams.append(name)
+                return f"({name} {self.expr(args[0], env)})"
+            if self.columns and isinstance(e.func, ast.Attribute) and e.func.attr == "where" and len(args) == 2 \
+                    and not e.keywords:
+                return f"(if {self.cond(args[0], env)} then {self.expr(e.func.value, env)} else {self.expr(args[1], env)})"
             if f in ("max", "np.maximum") and len(args) == 2:
                 return f"(max {self.expr(args[0], env)} {self.expr(args[1], env)})"
             if f in ("min", "np.minimum") and len(args) == 2:
@@ -537,6 +568,8 @@ class Fn:
             return self.block(rest, env)  # docstring
         if isinstance(s, ast.Assert):
             return self.block(rest, env)
+        if isinstance(s, ast.Expr) and isinstance(s.value, ast.Call) and ast.unparse(s.value.func).startswith("logging."):
+            return self.block(rest, env)  # logging has no effect on values
         if isinstance(s, ast.Return):
             if self.boolean:
                 return self.cond(s.value, env)
@@ -608,10 +641,12 @@ class Fn:
         if "MASK:" in body:
             raise Untranslatable("a mask escaped into an arithmetic position")
         sig = [self.rename.get(a.arg, a.arg) for a in self.fn.args.args]
-        ordered = [p for p in sig if p in self.params] + [p for p in self.params if p not in sig]
+        found = [p for p in self.params if p not in sig]
+        ordered = [p for p in sig if p in self.params] + (sorted(found) if self.sort_params else found)
         # `2 ** x` parameters replace x itself when x is not otherwise used
         ps = " ".join(ordered)
-        head = f"def {lean_name} ({ps} : Rat) : Rat :=\n  {body}" if ordered else f"def {lean_name} : Rat :=\n  {body}"
+        fps = f"({' '.join(sorted(self.fparams))} : Rat → Rat) " if self.fparams else ""
+        head = f"def {lean_name} {fps}({ps} : Rat) : Rat :=\n  {body}" if ordered else f"def {lean_name} {fps}: Rat :=\n  {body}"
         doc = f"/-- {comment} -/\n" if comment else ""
         return doc + head, ordered
 
@@ -1837,6 +1872,165 @@ def emit_pieces(repo, o, specs):
             text = f"{doc}def {lean}{ps} : {typ} :=\n  {body}"
         except (Untranslatable, KeyError, OSError, SyntaxError, IndexError, AttributeError) as e:
             o.lines.append(f"-- NOT TRANSLATED: {sp['path']}:{sp['func']}:{lean}: {type(e).__name__}: {str(e)[:200]}".replace("\n", " "))
+            o.info[lean] = {"error": str(e)[:200]}
+            continue
+        o.lines.append(text)
+        o.info[lean] = {"params": params}
+
+
+# ---------------------------------------------------------------------------------------------------------------
+# value of an expression inside a function (C17 additions; see the reading rules at the top)
+
+def _own_nodes(node):
+    """walk `node` without descending into nested function definitions / lambdas"""
+    todo = [node]
+    while todo:
+        n = todo.pop()
+        yield n
+        for c in ast.iter_child_nodes(n):
+            if not isinstance(c, (ast.FunctionDef, ast.Lambda, ast.AsyncFunctionDef)):
+                todo.append(c)
+
+
+def _stores(stmt):
+    if isinstance(stmt, (ast.FunctionDef, ast.AsyncFunctionDef)):
+        return {stmt.name}
+    return {n.id for n in _own_nodes(stmt) if isinstance(n, ast.Name) and isinstance(n.ctx, ast.Store)}
+
+
+def _loads(node):
+    return {n.id for n in _own_nodes(node) if isinstance(n, ast.Name) and isinstance(n.ctx, ast.Load)}
+
+
+def _chain(tree, dotted):
+    """`outer.inner` -> [outer FunctionDef, inner FunctionDef]"""
+    names = dotted.split(".")
+    fns, scope = [], tree.body
+    for nm in names:
+        hit = [n for n in scope if isinstance(n, ast.FunctionDef) and n.name == nm]
+        if len(hit) != 1:
+            raise Untranslatable(f"function {dotted} not found (or defined twice)")
+        fns.append(hit[0])
+        scope = hit[0].body
+    return fns
+
+
+def _select(fn, selector):
+    """-> (target expression, index of the first top-level statement of `fn` that is NOT part of its prefix)"""
+    kind = selector[0]
+    body = fn.body
+    if kind == "local":
+        idx = [k for k, st in enumerate(body) if selector[1] in _stores(st) and not isinstance(st, ast.FunctionDef)]
+        if not idx:
+            raise Untranslatable(f"no assignment to `{selector[1]}`")
+        return ast.Name(id=selector[1], ctx=ast.Load()), idx[-1] + 1
+    if kind == "call_arg":
+        hits = [(k, c) for k, st in enumerate(body) for c in _own_nodes(st)
+                if isinstance(c, ast.Call) and ast.unparse(c.func) == selector[1]]
+        if len(hits) != 1 or len(hits[0][1].args) <= selector[2]:
+            raise Untranslatable(f"expected exactly one call of {selector[1]} with {selector[2] + 1} positional arguments")
+        return hits[0][1].args[selector[2]], hits[0][0]
+    if kind == "return_mean":
+        last = body[-1]
+        if not isinstance(last, ast.Return) or last.value is None:
+            raise Untranslatable("the function does not end in a return")
+        v = last.value
+        if isinstance(v, ast.Call) and isinstance(v.func, ast.Attribute) and v.func.attr == "mean" and not v.args \
+                and not v.keywords and ast.unparse(v.func.value) not in ("np", "numpy"):
+            return v.func.value, len(body) - 1
+        if isinstance(v, ast.Call) and ast.unparse(v.func) in ("np.mean", "numpy.mean") and len(v.args) == 1 and not v.keywords:
+            return v.args[0], len(body) - 1
+        raise Untranslatable("the returned value is not `E.mean()` / `np.mean(E)`: " + ast.unparse(v)[:60])
+    raise Untranslatable(f"selector {selector!r}")
+
+
+def _slice(fns, target, stop):
+    """the statements of the enclosing functions (outermost first) that define what `target` uses"""
+    needed = _loads(target)
+    kept = []
+    for depth in range(len(fns) - 1, -1, -1):
+        fn = fns[depth]
+        end = stop if depth == len(fns) - 1 else fn.body.index(fns[depth + 1])
+        mine = []
+        for st in reversed(fn.body[:end]):
+            if isinstance(st, (ast.FunctionDef, ast.Return, ast.Raise)) or not (_stores(st) & needed):
+                continue
+            if isinstance(st, ast.Assign) and len(st.targets) == 1 and isinstance(st.targets[0], ast.Name):
+                needed = (needed - {st.targets[0].id}) | _loads(st.value)
+            else:
+                needed = needed | _loads(st)
+            mine.append(st)
+        kept = list(reversed(mine)) + kept
+    return kept
+
+
+class _Component(ast.NodeTransformer):
+    """every fixed-length array literal stands for its i-th element"""
+    def __init__(self, i):
+        self.i = i
+        self.lengths = set()
+
+    def visit_Call(self, node):
+        node = self.generic_visit(node)
+        if ast.unparse(node.func) in ("np.array", "np.asarray", "numpy.array", "list", "tuple") and len(node.args) == 1 \
+                and not node.keywords:
+            return node.args[0]
+        return node
+
+    def _lit(self, node):
+        self.lengths.add(len(node.elts))
+        if self.i >= len(node.elts):
+            raise Untranslatable("array literal shorter than the component asked for")
+        return self.visit(node.elts[self.i])
+
+    visit_List = _lit
+    visit_Tuple = _lit
+
+
+def value_fn(tree, dotted, selector, component=None):
+    """a synthetic straight-line function whose returned value is the selected expression"""
+    import copy
+    fns = _chain(tree, dotted)
+    target, stop = _select(fns[-1], selector)
+    stmts = [copy.deepcopy(s) for s in _slice(fns, target, stop)] + [ast.Return(value=copy.deepcopy(target))]
+    if component is not None:
+        t = _Component(component)
+        stmts = [t.visit(s) for s in stmts]
+        if len(t.lengths) > 1:
+            raise Untranslatable("array literals of different lengths in one elementwise computation")
+    args = [a for f in fns for a in f.args.args]
+    seen, uniq = set(), []
+    for a in args:
+        if a.arg not in seen:
+            seen.add(a.arg)
+            uniq.append(ast.arg(arg=a.arg))
+    syn = ast.FunctionDef(name=fns[-1].name, args=ast.arguments(posonlyargs=[], args=uniq, kwonlyargs=[], kw_defaults=[],
+                                                                defaults=[]), body=stmts, decorator_list=[])
+    return ast.fix_missing_locations(syn)
+
+
+def emit_values(repo, o, specs):
+    """specs: (file, `outer.inner` function, selector, lean name, options, comment).  options: `component` (int),
+    `mean` (bool: emit `<lean>_elem` and the list-level mean `<lean>`), everything else goes to `Fn`.  As with
+    `emit`, what cannot be read leaves a comment, so that exactly the theorems about it stop checking."""
+    import os
+    from .translate import parse
+    for path, dotted, selector, lean, kw, comment in specs:
+        kw = dict(kw)
+        component = kw.pop("component", None)
+        mean = kw.pop("mean", False)
+        try:
+            tree, _src = parse(os.path.join(repo, path))
+            syn = value_fn(tree, dotted, selector, component)
+            name = lean + "_elem" if mean else lean
+            text, params = Fn(syn, **kw).translate(name, comment)
+            if mean:
+                if len(params) != 1:
+                    raise Untranslatable(f"the averaged expression must depend on the array alone, found {params}")
+                text += (f"\n/-- `{dotted}`: the mean of `{name}` over the elements -/\n"
+                         f"def {lean} (a : List Rat) : Rat :=\n  (a.map {name}).sum / (a.length : Rat)")
+        except (Untranslatable, KeyError, OSError, SyntaxError) as e:
+            o.lines.append(f"-- NOT TRANSLATED: {path}:{dotted}: {type(e).__name__}: {str(e)[:200]}".replace("\n", " "))
             o.info[lean] = {"error": str(e)[:200]}
             continue
         o.lines.append(text)
